@@ -252,6 +252,11 @@ def run(pid: str, tier: str, seed: int, selftest=False, replay=None) -> int:
         # the outer configuration too)
         nests += [pre + ("F", a, "F", b, ")", ")") + post for pre in ((), ("I1",)) for a, b in (("I3", "J5"), ("J3", "I5"), ("I3", "J3"))
                   for post in ((), ("J1",))]
+        if pid == "C06":
+            # ... and computed from both loop variables by operations of the inner body (the outer variable's cast is an input operation of
+            # the outer configuration and a value from outside for the inner one)
+            nests += [pre + ("F", a, "F", b, ")", ")") + post for pre in ((), ("I1",)) for a, b in (("I3", "J6"), ("J3", "I6"))
+                      for post in ((), ("J1",))]
         progs = list(progs) + deep + sandwiches + around + twoloops + nests
         n_small = 0
         for toks in progs:
